@@ -186,7 +186,7 @@ template <> struct TInfo<float> {
 };
 template <> struct TInfo<double> {
   static constexpr char code = 'd';
-  static constexpr int kminCF = -460, kmaxCF = 490, kminL = -498, kmaxL = 498, kminNS = -300, kmaxNS = 300;
+  static constexpr int kminCF = -450, kmaxCF = 490, kminL = -498, kmaxL = 498, kminNS = -300, kmaxNS = 300;
 };
 template <> struct TInfo<long double> {
   static constexpr char code = 'l';
@@ -242,7 +242,7 @@ static std::vector<Q> jacobiEigenvalues(int n, std::vector<Q> a) {
 // tolerance constants (see tools/checks/c08.py RULE): residual / eigenvalue error <= C_EPS*eps*||A||_2 on the
 // eps-class paths (1x1, 2x2, LAPACK) and C_SQRT*sqrt(eps)*||A||_2 on the 3x3 closed form
 static const Q C_EPS = 1024;
-static const Q C_SQRT = 64;
+static const Q C_SQRT = 32;
 static const Q C_NORM = 256;   // | ||v||^2 - 1 | <= C_NORM*eps
 
 struct SymOut {
@@ -428,7 +428,18 @@ Result execSymT(const std::vector<std::string>& w) {
 }
 
 // ---- exact 2x2 -------------------------------------------------------------------------------------
-static std::string sgn(Q x) { return x > 0 ? "1" : x < 0 ? "-1" : "0"; }
+// sign pattern of an eigenvector, canonical up to the sign of the vector (first non-zero component positive)
+static std::string signPattern(const std::vector<Q>& v) {
+  int flip = 1;
+  for (Q x : v)
+    if (x != 0) { flip = x < 0 ? -1 : 1; break; }
+  std::string s = "[";
+  for (size_t i = 0; i < v.size(); ++i) {
+    Q x = v[i] * flip;
+    s += std::string(i ? "," : "") + (x > 0 ? "1" : x < 0 ? "-1" : "0");
+  }
+  return s + "]";
+}
 
 template <class T>
 Result execEv2x(const std::vector<std::string>& w) {
@@ -447,17 +458,20 @@ Result execEv2x(const std::vector<std::string>& w) {
   if (!o.err.empty()) { res.impl = o.err; res.oracle = "FAIL exception " + o.err + " for a symmetric matrix"; return res; }
   std::vector<T> w1 = {(T)o.w1[0], (T)o.w1[1]}, w2 = {(T)o.w2[0], (T)o.w2[1]};
   std::string vs = "[";
-  for (int i = 0; i < 2; ++i) vs += std::string(i ? "," : "") + "[" + sgn(o.V[i][0]) + "," + sgn(o.V[i][1]) + "]";
+  for (int i = 0; i < 2; ++i) vs += std::string(i ? "," : "") + signPattern(o.V[i]);
   vs += "]";
   res.impl = "vals=" + dyList(w1) + " vvals=" + dyList(w2) + " vecs=" + vs;
-  // exact oracle (Vieta): l0+l1 = tr, l0*l1 = det, l0 <= l1
+  // independent cross-check (Vieta) within the eps-class tolerance: l0+l1 = tr, l0*l1 = det, l0 <= l1.  Bit-exactness
+  // is the business of the correspondence with the model, not of the property.
   Q sc = scalbnq((Q)1, e);
   Q tr = (Q)(a + d) * sc, det = ((Q)a * (Q)d - (Q)b * (Q)b) * sc * sc;
+  Q nrm = (Q)(std::labs(a) + std::labs(b) + std::labs(d)) * sc;
+  Q tolV = C_EPS * effEps<T>(false);
   for (auto* ww : {&o.w1, &o.w2}) {
     Q l0 = (*ww)[0], l1 = (*ww)[1];
     if (!(l0 <= l1)) { res.oracle = "FAIL eigenvalues not ascending"; return res; }
-    if (l0 + l1 != tr) { res.oracle = "FAIL l0+l1=" + qstr(l0 + l1) + " is not the trace " + qstr(tr) + " (exact case)"; return res; }
-    if (l0 * l1 != det) { res.oracle = "FAIL l0*l1=" + qstr(l0 * l1) + " is not the determinant " + qstr(det) + " (exact case)"; return res; }
+    if (qabs(l0 + l1 - tr) > tolV * nrm) { res.oracle = "FAIL l0+l1=" + qstr(l0 + l1) + " is not the trace " + qstr(tr); return res; }
+    if (qabs(l0 * l1 - det) > tolV * nrm * nrm) { res.oracle = "FAIL l0*l1=" + qstr(l0 * l1) + " is not the determinant " + qstr(det); return res; }
   }
   std::vector<Q> Aq = {(Q)A[0][0], (Q)A[0][1], (Q)A[1][0], (Q)A[1][1]};
   std::string f = checkSym(2, Aq, o, effEps<T>(false), false, std::string(1, TInfo<T>::code) + "_ev2x");
@@ -497,7 +511,7 @@ Result execEv3x(const std::vector<std::string>& w) {
     std::vector<T> w1, w2;
     for (int i = 0; i < 3; ++i) { w1.push_back((T)o.w1[i]); w2.push_back((T)o.w2[i]); }
     std::string vs = "[";
-    for (int i = 0; i < 3; ++i) vs += std::string(i ? "," : "") + "[" + sgn(o.V[i][0]) + "," + sgn(o.V[i][1]) + "," + sgn(o.V[i][2]) + "]";
+    for (int i = 0; i < 3; ++i) vs += std::string(i ? "," : "") + signPattern(o.V[i]);
     vs += "]";
     res.impl = "vals=" + dyList(w1) + " vvals=" + dyList(w2) + " vecs=" + vs;
   } else {
@@ -1024,17 +1038,23 @@ std::string genSymT(Rng& rng, int n, bool lap, const std::string& tier) {
     case 0: k = 0; break;
     case 1: k = kmin + (int)rng.below(8); break;
     case 2: k = kmax - (int)rng.below(8); break;
-    case 3: k = (int)rng.range(-60, 60); break;
+    case 3: k = (int)rng.range(std::max(kmin, -60), std::min(kmax, 60)); break;
     default: k = (int)rng.range(kmin, kmax); break;
   }
   (void)tier;
   std::string line = std::string("sym ") + TInfo<T>::code + " " + std::to_string(n) + " " + (lap ? "lap" : "cf") + " " + std::to_string(k);
+  // symmetrise before rounding so that the stored matrix is exactly symmetric; normalise the base matrix to
+  // max |entry| in [1,2) (exact power of two) so that the magnitude of the executed matrix is 2^k
+  std::vector<T> R(n * n);
+  T mx = 0;
   for (int i = 0; i < n; ++i)
     for (int j = i; j < n; ++j) {
-      // symmetrise before rounding so that the stored matrix is exactly symmetric
-      LD v = (A[i * n + j] + A[j * n + i]) / 2;
-      line += " " + hexOf<T>((T)v);
+      R[i * n + j] = (T)((A[i * n + j] + A[j * n + i]) / 2);
+      mx = std::max(mx, (T)std::fabs(R[i * n + j]));
     }
+  int lg = mx > 0 ? std::ilogb(mx) : 0;
+  for (int i = 0; i < n; ++i)
+    for (int j = i; j < n; ++j) line += " " + hexOf<T>((T)std::ldexp(R[i * n + j], -lg));
   return line;
 }
 
@@ -1090,11 +1110,12 @@ std::string genEv3x(Rng& rng) {
   int half = (digits - 1) / 2 + 1;  // off-diagonal 2^-half: square 2^-(2 half) around eps = 2^-(digits-1)
   int S = half + 3;
   auto off = [&]() -> long {
-    switch (rng.below(5)) {
+    switch (rng.below(6)) {
       case 0: return 0;
       case 1: return (1L << 3) * (rng.coin() ? 1 : -1);  // 2^-half
       case 2: return (1L << 2) * (rng.coin() ? 1 : -1);  // 2^-(half+1)
       case 3: return (1L << 1) * (rng.coin() ? 1 : -1);
+      case 4: return (1L << 4) * (rng.coin() ? 1 : -1);  // 2^-(half-1): its square alone is eps (double) or 2 eps
       default: return 0;
     }
   };
@@ -1133,7 +1154,7 @@ std::string genHand(Rng& rng) {
   if ((which == "auto" || which == "autovals") && n < 4) n = 4 + (int)rng.below(3);
   std::vector<long> A(n * n);
   for (int i = 0; i < n; ++i)
-    for (int j = i; j < n; ++j) A[i * n + j] = A[j * n + i] = rng.range(-9, 9) + 10 * (i + 1) * (j + 1 == i + 1 ? 1 : 0);
+    for (int j = i; j < n; ++j) A[i * n + j] = A[j * n + i] = rng.range(-9, 9) + (i == j ? 10 * (i + 1) : 0);
   std::string line = std::string("hand ") + TInfo<T>::code + " " + std::to_string(n) + " " + which;
   for (auto x : A) line += " " + std::to_string(x);
   return line;
